@@ -169,6 +169,25 @@ def run(pid, tier):
                 texts.append((name, "%r -> %r" % (ln, out)))
         traces.append(ev)
         meta.append({"cfg": {"words": c["words"], "reserved": c["reserved"], "salt": salt}, "texts": texts})
+    # secret stage and word stage together: a listed word in front of a scrub-mode syntax must not survive
+    try:
+        words = ["kitten", "zurnet"]
+        fa = AF.FileAnonymizer(anon_pwd=True, anon_ip=False, salt="TESTSALT", sensitive_words=words)
+        lines = ['{"kitten-key": "cable shared-secret FOOBARXQ"}', "kitten: key-string 7 0822455D0A16", "zurnet-gw ldap-login-password Hunter2Xq kitten",
+                 "set system host-name kitten root-authentication encrypted-password \"$1$abcdefgh$abcdefghijklmnopqrstuv\"", "hostname kitten-rtr", "enable secret S3cretXq"]
+        buf = io.StringIO()
+        fa.anonymize_io(io.StringIO("\n".join(lines) + "\n"), buf)
+        outs = buf.getvalue().split("\n")[:-1]
+        ev = [{"ev": "cfg", "words": [cps(w) for w in words], "reserved": [], "clauses": ["Survivor"]}]
+        texts = [None]
+        for ln, o in zip(lines, outs):
+            ev.append({"ev": "line", "in": cps(ln), "out": cps(o)})
+            texts.append(("secrets+words", "%r -> %r" % (ln, o)))
+        traces.append(ev)
+        meta.append({"cfg": {"words": words, "reserved": [], "salt": "TESTSALT", "stage": "secrets+words"}, "texts": texts})
+    except Exception as e:
+        traces.append([{"ev": "cfg", "words": [], "reserved": [], "clauses": CLAUSES}, {"ev": "exc", "what": "secrets+words: %r" % (e,)}])
+        meta.append({"cfg": {"stage": "secrets+words"}, "texts": [None, ("secrets+words", "EXC")]})
     # reserved secret values are left alone by the secret stage
     try:
         fa = AF.FileAnonymizer(anon_pwd=True, anon_ip=False, salt="s", reserved_words=["MyCorpkit", "plain"])
